@@ -73,6 +73,7 @@ class Conn:
         self.name = f"peer{idx + 1}.verif.example"
         self.p = None
         self.unanswered = []   # requests the peer wrote: (code, app, hbh, e2e, letter)
+        self.answered = []     # ... and those the node has answered since
         self.seen = 0
         self.hbh = 1000 * (idx + 1)
 
@@ -160,14 +161,44 @@ class Case:
         M, REALM = self.M, self.REALM
         hbh, e2e = c.next_ids()
         # "~h0" / "~e0": the request bears hop-by-hop resp. end-to-end identifier 0 (a legal value)
+        # "~T" "~E" "~P": that header flag is set on the frame as well (requests and answers alike; a T or E bit on an
+        # answer, or on a request, changes nothing about who may be answered);  "rep": the frame bears the
+        # identifiers of the request this peer sent last on this connection and that the node has answered (what
+        # a retransmission, or an answer echoing old identifiers, looks like)
+        flag_or, reuse = 0, None
         if "~" in letter:
-            letter, zero = letter.split("~")
-            if zero == "h0" and not any(r[2] == 0 for r in c.unanswered):
-                hbh = 0
-            if zero == "e0" and not any(r[3] == 0 for r in c.unanswered):
-                e2e = 0
-            self.run.cov["zero_identifier_requests"] = self.run.cov.get("zero_identifier_requests", 0) + 1
+            letter, mod = letter.split("~")
+            if mod in ("h0", "e0"):
+                if mod == "h0" and not any(r[2] == 0 for r in c.unanswered):
+                    hbh = 0
+                if mod == "e0" and not any(r[3] == 0 for r in c.unanswered):
+                    e2e = 0
+                self.run.cov["zero_identifier_requests"] = self.run.cov.get("zero_identifier_requests", 0) + 1
+            else:
+                if "rep" in mod:
+                    mod = mod.replace("rep", "")
+                    done = [r for r in c.answered if not any(u[2:4] == r[2:4] for u in c.unanswered)]
+                    if done:
+                        reuse = done[-1][2:4]
+                for ch in mod:
+                    flag_or |= {"T": 0x10, "E": 0x20, "P": 0x40}.get(ch, 0)
+                self.run.cov["retouched_frames"] = self.run.cov.get("retouched_frames", 0) + 1
+                if reuse and flag_or & 0x10:
+                    self.run.cov["t_flag_with_answered_identifiers"] = \
+                        self.run.cov.get("t_flag_with_answered_identifiers", 0) + 1
+        if reuse:
+            hbh, e2e = reuse
         p = c.p
+        if flag_or:
+            real = c.p
+
+            class _Retouch:
+                @staticmethod
+                def send(frame, label=None):
+                    b = bytearray(frame)
+                    b[4] |= flag_or
+                    return real.send(bytes(b), label)
+            p = _Retouch
         name = c.name
         req = None
         if letter == "CER":
@@ -273,7 +304,7 @@ class Case:
                     key = "answer.no_pending_request_on_this_connection"
                 self.witness(key, {"frame": repr(f), "conn": c.idx, "pending": c.unanswered[-4:]})
             else:
-                c.unanswered.pop(hit)
+                c.answered.append(c.unanswered.pop(hit))
                 self.matched += 1
                 if input_was_answer:
                     self.witness(f"answer_sent_in_reaction_to_answer.{letter}", {"frame": repr(f), "conn": c.idx})
@@ -289,7 +320,7 @@ class Case:
                 c = self.conns[ci % len(self.conns)]
                 if c.p.node_sock.closed or c.p.closed:
                     continue
-                is_ans = letter in ANS_LETTERS or letter in LATE
+                is_ans = letter.split("~")[0] in ANS_LETTERS or letter in LATE
                 if letter == "APPREQ":
                     # the application sends a request and gives up waiting at once; the peer may answer later
                     from vf.simnet.world import app_request
@@ -397,6 +428,11 @@ DIRECTED = [
     ("in-connected", "answer", ["CER~h0", "REQ~e0"]),
     ("in-connected", "answer", ["CER~e0", "DWR~h0"]),
     ("out-ready", "defer", ["REQ~h0", "SUB", "REQ~e0", "SUB", "DPR~e0"]),
+    # header flags and recycled identifiers on answers: nothing of that makes an answer answerable
+    ("in-ready", "answer", ["DWR", "DWA~Trep", "REQ", "ANS~Trep", "ANS~T", "DWA~Erep", "ANSbare~Trep", "DPA~Trep"]),
+    ("out-ready", "answer", ["REQ", "ANS~Trep", "DWR", "DWA~Trep", "CEA~T", "ANSerr~Trep"]),
+    ("in-waiting-dwa", "threading-answer", ["REQ", "ANS~Trep", "DWA~T", "DWR", "DWA~TErep"]),
+    ("in-ready", "answer", ["REQ", "REQ~Trep", "DWR~T", "DWR~Trep", "REQmiss~T", "REQcmd~TP", "DPR~Trep"]),
 ]
 
 
@@ -574,6 +610,9 @@ def run_shard(spec):
             d = rng.randrange(2, 9)
             script = [(rng.randrange(nconn), rng.choice(LETTERS)) for _ in range(d)]
             script = [(ci, l + rng.choice(["~h0", "~e0"])) if l in REQ_LETTERS and rng.random() < 0.12 else (ci, l)
+                      for ci, l in script]
+            script = [(ci, l + rng.choice(["~T", "~Trep", "~Trep", "~rep", "~E", "~TE", "~P"]))
+                      if "~" not in l and l in REQ_LETTERS + ANS_LETTERS and rng.random() < 0.15 else (ci, l)
                       for ci, l in script]
             run.one(rng.choice(STARTS), rng.choice(BEHAVIOURS), script, nconn)
     return run.result()
